@@ -188,6 +188,9 @@ type BFS struct {
 	State func(r *Run, n *Node, w *World)
 	// ValidatePaths: replay each discovered state's path on a fresh IAVL world.
 	ValidatePaths bool
+	// Root sharding: at depth 0 only the actions with index % RootShards == RootShard
+	// are expanded (the subtrees below are explored completely by this job).
+	RootShard, RootShards int
 }
 
 // Explore runs the BFS; returns number of distinct states.
@@ -223,7 +226,10 @@ func (b *BFS) Explore(r *Run) int {
 			}
 			w.Load(n.Dump)
 			acts := b.Actions(n, w)
-			for _, a := range acts {
+			for ai, a := range acts {
+				if depth == 0 && b.RootShards > 1 && ai%b.RootShards != b.RootShard {
+					continue
+				}
 				w.Load(n.Dump)
 				o := w.Apply(a)
 				r.Transitions++
